@@ -68,19 +68,19 @@ package ecs
 //@   assert   cleanupArchetypes index-moved: old(s.entities[entity.id].row) != old(s.tables[s.entities[entity.id].table].len) - 1 ==>
 //@        s.entities[old(rowEnt(&s.tables[s.entities[entity.id].table])[s.tables[s.entities[entity.id].table].len-1]).id].table == old(s.entities[entity.id].table)
 //@        && s.entities[old(rowEnt(&s.tables[s.entities[entity.id].table])[s.tables[s.entities[entity.id].table].len-1]).id].row == old(s.entities[entity.id].row)
-//@   ensures  rows-other: forall t uint32, r uint32 :: __trigger(rowEnt(&s.tables[t])[r]) && (uint64(t) < uint64(len(s.tables)) && tableID(t) != old(s.entities[entity.id].table) ==>
-//@        s.tables[t].len == old(s.tables[t].len) && (r < s.tables[t].len ==> rowEnt(&s.tables[t])[r] == old(rowEnt(&s.tables[t])[r])))
-//@   ensures  rows-same: s.tables[old(s.entities[entity.id].table)].len == old(s.tables[s.entities[entity.id].table].len) - 1
+//@   ensures  rows-other: old(s.isTarget[entity.id]) || (forall t uint32, r uint32 :: __trigger(rowEnt(&s.tables[t])[r]) && (uint64(t) < uint64(len(s.tables)) && tableID(t) != old(s.entities[entity.id].table) ==>
+//@        s.tables[t].len == old(s.tables[t].len) && (r < s.tables[t].len ==> rowEnt(&s.tables[t])[r] == old(rowEnt(&s.tables[t])[r]))))
+//@   ensures  rows-same: old(s.isTarget[entity.id]) || (s.tables[old(s.entities[entity.id].table)].len == old(s.tables[s.entities[entity.id].table].len) - 1
 //@        && (forall r uint32 :: __trigger(rowEnt(&s.tables[old(s.entities[entity.id].table)])[r]) && (r < s.tables[old(s.entities[entity.id].table)].len && r != old(s.entities[entity.id].row) ==>
 //@              rowEnt(&s.tables[old(s.entities[entity.id].table)])[r] == old(rowEnt(&s.tables[s.entities[entity.id].table])[r])))
 //@        && (old(s.entities[entity.id].row) < s.tables[old(s.entities[entity.id].table)].len ==>
-//@              rowEnt(&s.tables[old(s.entities[entity.id].table)])[old(s.entities[entity.id].row)] == old(rowEnt(&s.tables[s.entities[entity.id].table])[s.tables[s.entities[entity.id].table].len-1]))
-//@   ensures  index-kept: len(s.entities) == old(len(s.entities)) && len(s.tables) == old(len(s.tables)) && (forall i uint32 :: __trigger(s.entities[i].row) && (uint64(i) < uint64(len(s.entities)) && entityID(i) != entity.id
+//@              rowEnt(&s.tables[old(s.entities[entity.id].table)])[old(s.entities[entity.id].row)] == old(rowEnt(&s.tables[s.entities[entity.id].table])[s.tables[s.entities[entity.id].table].len-1])))
+//@   ensures  index-kept: old(s.isTarget[entity.id]) || (len(s.entities) == old(len(s.entities)) && len(s.tables) == old(len(s.tables)) && (forall i uint32 :: __trigger(s.entities[i].row) && (uint64(i) < uint64(len(s.entities)) && entityID(i) != entity.id
 //@        && !(old(s.entities[entity.id].row) != old(s.tables[s.entities[entity.id].table].len) - 1 && entityID(i) == old(rowEnt(&s.tables[s.entities[entity.id].table])[s.tables[s.entities[entity.id].table].len-1]).id) ==>
-//@              s.entities[i] == old(s.entities[i])))
-//@   ensures  index-moved: old(s.entities[entity.id].row) != old(s.tables[s.entities[entity.id].table].len) - 1 ==>
+//@              s.entities[i] == old(s.entities[i]))))
+//@   ensures  index-moved: old(s.isTarget[entity.id]) || (old(s.entities[entity.id].row) != old(s.tables[s.entities[entity.id].table].len) - 1 ==>
 //@        s.entities[old(rowEnt(&s.tables[s.entities[entity.id].table])[s.tables[s.entities[entity.id].table].len-1]).id].table == old(s.entities[entity.id].table)
-//@        && s.entities[old(rowEnt(&s.tables[s.entities[entity.id].table])[s.tables[s.entities[entity.id].table].len-1]).id].row == old(s.entities[entity.id].row)
+//@        && s.entities[old(rowEnt(&s.tables[s.entities[entity.id].table])[s.tables[s.entities[entity.id].table].len-1]).id].row == old(s.entities[entity.id].row))
 //@   ensures  dead: !alive(&s.entityPool, entity)
 //@   ensures  others: forall h Entity :: h.id != entity.id ==> alive(&s.entityPool, h) == old(alive(&s.entityPool, h))
 //@   ensures  inv: indexInv(s)
